@@ -1,0 +1,1 @@
+//! Hooks owned by property C19 (feature `verif-hooks`).
